@@ -1,7 +1,7 @@
 SPECIFICATION Spec
 CONSTANTS MaxNode = 2
-          MaxBlock = 1
-          MaxReq = 2
-          MaxSess = 1
+          MaxBlock = 2
+          MaxReq = 1
+          MaxSess = 0
 INVARIANTS TypeOK AtMostOncePerDistinctKey OnlyRequested OnlyFromHolder ClosedComplete Cleanup
 CONSTRAINT MCBound
